@@ -74,6 +74,10 @@ pub trait Sch: 'static {
     fn proof_elem(_p: &<Self::PC as PolynomialCommitment<SF, Self::P>>::Proof, _k: usize) -> Option<SF> {
         None
     }
+    /// the G1 generator published in the verifier key, as its exponent (pairing-based schemes)
+    fn generator(_vk: &<Self::PC as PolynomialCommitment<SF, Self::P>>::VerifierKey) -> Option<SF> {
+        None
+    }
     /// replaces the k-th group element of an opening proof (pairing-based schemes); false if there is none
     fn set_proof_elem(_p: &mut <Self::PC as PolynomialCommitment<SF, Self::P>>::Proof, _k: usize, _v: SF) -> bool {
         false
@@ -164,6 +168,9 @@ impl Sch for Marlin {
     fn proof_elem(p: &ark_poly_commit::kzg10::Proof<ToyPairing>, _k: usize) -> Option<SF> {
         Some(p.w.0)
     }
+    fn generator(vk: &<Self::PC as PolynomialCommitment<SF, UP>>::VerifierKey) -> Option<SF> {
+        Some(vk.vk.g.0)
+    }
     fn set_proof_elem(p: &mut ark_poly_commit::kzg10::Proof<ToyPairing>, _k: usize, v: SF) -> bool {
         p.w = crate::engine::grp::TA(v);
         true
@@ -181,6 +188,9 @@ impl Sch for Sonic {
     }
     fn proof_elem(p: &ark_poly_commit::kzg10::Proof<ToyPairing>, _k: usize) -> Option<SF> {
         Some(p.w.0)
+    }
+    fn generator(vk: &<Self::PC as PolynomialCommitment<SF, UP>>::VerifierKey) -> Option<SF> {
+        Some(vk.g.0)
     }
     fn set_proof_elem(p: &mut ark_poly_commit::kzg10::Proof<ToyPairing>, _k: usize, v: SF) -> bool {
         p.w = crate::engine::grp::TA(v);
@@ -272,6 +282,9 @@ impl Sch for Pst13 {
     }
     fn proof_elem(p: &ark_poly_commit::marlin_pst13_pc::Proof<ToyPairing>, k: usize) -> Option<SF> {
         p.w.get(k).map(|w| w.0)
+    }
+    fn generator(vk: &<Self::PC as PolynomialCommitment<SF, MP>>::VerifierKey) -> Option<SF> {
+        Some(vk.g.0)
     }
     fn set_proof_elem(p: &mut ark_poly_commit::marlin_pst13_pc::Proof<ToyPairing>, k: usize, v: SF) -> bool {
         if k < p.w.len() {
